@@ -13,6 +13,8 @@ Encoding (tokens of Driver/Parse.lean; every list is length-prefixed):
                                            produces exactly these returned values and final values;
                                            `no-serial-order` otherwise; `search-limit` if the search budget
                                            is exhausted; `bad-history` if the shapes do not fit the scripts
+  lockcheckx <sys> <returns> <finals>   → the same computation (used for deliberately corrupted histories, where
+                                           any answer is fine as long as harness and driver agree)
   lockmodel  <sys> <sched: m t1 … tm>   → run the concurrent model (generated `applyShape`) under a schedule:
                                            `<finished 0|1> <acquisition order> <returns> <finals>`
 
@@ -127,7 +129,7 @@ def lockFamily (fam : String) : Option (Parser String) :=
     pure (match serialOutcome sys order with
       | some o => showOutcome o
       | none => "incomplete")
-  | "lockcheck" => some do
+  | "lockcheck" | "lockcheckx" => some do
     let sys ← sysP; let rets ← listOf words; let finals ← words; done
     pure (lockcheck sys rets finals)
   | "lockmodel" => some do
